@@ -320,9 +320,26 @@ func (f *fidRef) markChildDeleted(name string) {
 // Precondition: this must be called via safelyGlobal.
 func notifyNameChange(pn *pathNode) {
 	// Call on all local references.
+	//
+	// A reference may be dropped concurrently (a Tclunk or a disconnect does
+	// not take renameMu), which closes its File. Pin each reference before
+	// calling into its File, as removeWithName does, and release the pins
+	// only after childMu has been released: dropping the last reference
+	// calls removeChild on this very node.
+	type pinned struct {
+		ref  *fidRef
+		name string
+	}
+	var refs []pinned
 	pn.forEachChildRef(func(ref *fidRef, name string) {
-		ref.file.Renamed(ref.parent.file, name)
+		if ref.TryIncRef() {
+			refs = append(refs, pinned{ref, name})
+		}
 	})
+	for _, p := range refs {
+		p.ref.file.Renamed(p.ref.parent.file, p.name)
+		p.ref.DecRef()
+	}
 
 	// Call on all subtrees.
 	pn.forEachChildNode(func(pn *pathNode) {
